@@ -46,7 +46,7 @@
 \* Strings are sequences of ASCII codes, so that sorting and quoting are those of the real strings.
 EXTENDS Integers, Sequences, FiniteSets, TLC
 
-Handles == 0..12
+Handles == 0..30
 Keys == {1, 2}
 Instance == <<105, 110, 115, 116, 97, 110, 99, 101>>      \* "instance"
 
